@@ -35,7 +35,7 @@ Section Func.
   Theorem compile_correct_partial f args :
     check_func f = true -> locals_ok f = true ->
     Forall2 (vok fo) (f_params f) args ->
-    loop_free_block (f_body f) = true ->
+    loop_free_block (f_body f) = true -> f_virt f = [] ->
     static_flags f = [] -> dyn_flags fo f args = [] ->
     exists w, compile f = Some w /\
       match spec_run fo f args with
@@ -44,7 +44,8 @@ Section Func.
       | Unspec => True
       end.
   Proof.
-    intros Hc Hl Ha Hlf Hs Hd. unfold check_func in Hc. apply andb_true_iff in Hc. destruct Hc as [Hc _].
+    intros Hc Hl Ha Hlf Hv Hs Hd. unfold static_flags in Hs. apply app_nil_inv in Hs. destruct Hs as [Hs _].
+    unfold check_func in Hc. apply andb_true_iff in Hc. destruct Hc as [Hc _].
     destruct (stmts_ok fo (f_tys f) (length (f_params f)) (f_ret f)) as (_ & HB & _).
     destruct (HB (f_body f) _ Hc Hs Hlf) as (code & d & Ec & S).
     unfold compile. rewrite (Ec 0%nat None). eexists. split; [reflexivity|].
@@ -53,7 +54,7 @@ Section Func.
     destruct (args_sim _ _ Ha) as [La Na].
     assert (Hsim : sim fo (f_tys f) (seq 0 (length (f_params f))) (env_of fo args) ls0).
     { split.
-      - unfold ls0, f_tys. rewrite !app_length, !map_length, La.
+      - unfold ls0, f_tys. rewrite Hv, app_nil_r, !app_length, !map_length, La.
         pose proof (locals_ok_length f Hl) as LL. rewrite map_length in LL. rewrite LL. reflexivity.
       - intros i t Hi Hn. apply in_seq in Hi.
         assert (Hp : nth_error (f_params f) i = Some t).
@@ -77,7 +78,7 @@ End Func.
 From Synnax Require Import Arc.FloatExec.
 
 Definition mkf (ps : list ty) (ls : list ty) (r : ty) (b : block) : func :=
-  {| f_params := ps; f_locals := ls; f_ret := r; f_body := b |}.
+  {| f_params := ps; f_locals := ls; f_ret := r; f_body := b; f_virt := []; f_helpers := [] |}.
 Definition ret1 (e : expr) : block := BCons (SReturn e) BNil.
 
 Notation fx := fo_exec.
@@ -130,7 +131,7 @@ Definition w_if64 :=
       (BCons (SIf (EVar 0) (ret1 (ELit I32 1)) ElNone) (ret1 (ELit I32 2))).
 Definition w_if64_pinned : wfunc :=
   {| w_params := [VTI W64]; w_locals := []; w_result := VTI W32;
-     w_body := [LGet 0; If None [IConst W32 1; Return] None; IConst W32 2; Return] |}.
+     w_body := [LGet 0; If None [IConst W32 1; Return] None; IConst W32 2; Return]; w_pad := 0 |}.
 Lemma bare_if_on_i64_refuted :
   wf w_if64 = true /\ static_flags w_if64 = [] /\
   validate w_if64_pinned = false /\
